@@ -652,7 +652,7 @@ func mergeAndPersistSynonymSection(segments []*SegmentBase, dropsIn []*roaring.B
 		for err == nil {
 			term, itrI, postingsOffset := enumerator.Current()
 
-			if prevTerm != nil && !bytes.Equal(prevTerm, term) {
+			if !bytes.Equal(prevTerm, term) {
 				// check for the closure in meantime
 				if isClosed(closeCh) {
 					return nil, nil, seg.ErrClosed
@@ -711,11 +711,11 @@ func mergeAndPersistSynonymSection(segments []*SegmentBase, dropsIn []*roaring.B
 			return nil, nil, err
 		}
 
-		if prevTerm != nil {
-			err = finishTerm(prevTerm)
-			if err != nil {
-				return nil, nil, err
-			}
+		// also flushes the empty term, for which prevTerm stays nil
+		// (finishTerm writes nothing when no pair is pending)
+		err = finishTerm(prevTerm)
+		if err != nil {
+			return nil, nil, err
 		}
 
 		err = newVellum.Close()
